@@ -74,6 +74,8 @@ type fnSummary struct {
 	writes    []writeEffect // origins are param/free/global only
 	retOwn    origSet       // origins of returned pointer-like values (fresh = callee-fresh, site nil)
 	retCont   origSet       // what fresh returned objects contain
+	retOwnAt  []origSet     // the same per result index (functions with several results)
+	retContAt []origSet
 	extCalls  map[string]bool
 	globReads map[*ssa.Global]bool // package-level variables read (directly)
 }
@@ -221,6 +223,12 @@ func (st *fnState) ownOf(v ssa.Value) origSet {
 			res.addAll(st.ownOf(x.X))
 		}
 	case *ssa.Extract:
+		if c, isCall := x.Tuple.(*ssa.Call); isCall {
+			if r, ok := st.callResultAt(c, x); ok {
+				res.addAll(r)
+				break
+			}
+		}
 		res.addAll(st.ownOf(x.Tuple))
 	case *ssa.Phi:
 		for _, e := range x.Edges {
@@ -322,6 +330,47 @@ func (st *fnState) callResult(c *ssa.Call) origSet {
 		res.addAll(st.externalResult(c))
 	}
 	return res
+}
+
+// callResultAt: origins of one result of a call of module functions with several results (each result has its own
+// provenance: the scope returned next to an error object does not inherit what the error object may alias). The
+// fresh object a result may be is identified with the Extract instruction that takes it out of the tuple.
+func (st *fnState) callResultAt(c *ssa.Call, x *ssa.Extract) (origSet, bool) {
+	if _, isB := c.Call.Value.(*ssa.Builtin); isB {
+		return nil, false
+	}
+	callees := st.ea.m.calleesOf(c)
+	if len(callees) == 0 {
+		return nil, false
+	}
+	for _, cal := range callees {
+		sum := st.ea.sums[cal]
+		if sum == nil || cal.Blocks == nil {
+			return nil, false
+		}
+	}
+	res := origSet{}
+	for _, cal := range callees {
+		sum := st.ea.sums[cal]
+		if x.Index >= len(sum.retOwnAt) {
+			continue // not analysed yet (first round of the fixpoint) or no return
+		}
+		args := st.argsFor(c, cal)
+		for o := range sum.retOwnAt[x.Index] {
+			if o.kind == oFresh {
+				res.add(origin{kind: oFresh, site: x})
+			} else {
+				res.addAll(st.mapOrigin(o, args, c))
+			}
+		}
+		for o := range sum.retContAt[x.Index] {
+			if o.kind == oFresh {
+				continue
+			}
+			st.addContents(x, st.mapOrigin(o, args, c))
+		}
+	}
+	return res, true
 }
 
 func (st *fnState) loadFromSlice(v ssa.Value) origSet {
@@ -581,20 +630,27 @@ func (ea *effectAnalysis) analyse(fn *ssa.Function) bool {
 		if !ok {
 			continue
 		}
-		for _, v := range r.Results {
+		for len(sum.retOwnAt) < len(r.Results) {
+			sum.retOwnAt = append(sum.retOwnAt, origSet{})
+			sum.retContAt = append(sum.retContAt, origSet{})
+		}
+		for i, v := range r.Results {
 			if !pointerLike(v.Type()) {
 				continue
 			}
 			for o := range st.ownOf(v) {
 				if o.kind == oFresh {
 					sum.retOwn.add(origin{kind: oFresh})
+					sum.retOwnAt[i].add(origin{kind: oFresh})
 					for c := range st.flatContents(o.site, map[ssa.Instruction]bool{}) {
 						if c.kind != oFresh {
 							sum.retCont.add(c)
+							sum.retContAt[i].add(c)
 						}
 					}
 				} else {
 					sum.retOwn.add(o)
+					sum.retOwnAt[i].add(o)
 				}
 			}
 		}
@@ -666,6 +722,24 @@ func sameSummary(a, b *fnSummary) bool {
 	for o := range a.retCont {
 		if !b.retCont[o] {
 			return false
+		}
+	}
+	if len(a.retOwnAt) != len(b.retOwnAt) {
+		return false
+	}
+	for i := range a.retOwnAt {
+		if len(a.retOwnAt[i]) != len(b.retOwnAt[i]) || len(a.retContAt[i]) != len(b.retContAt[i]) {
+			return false
+		}
+		for o := range a.retOwnAt[i] {
+			if !b.retOwnAt[i][o] {
+				return false
+			}
+		}
+		for o := range a.retContAt[i] {
+			if !b.retContAt[i][o] {
+				return false
+			}
 		}
 	}
 	return true
